@@ -283,9 +283,19 @@ class TranslatorC(Translator):
                         ">>": "rshift",
                         "a>>": "a_rshift"
                     }
-                    out = "bignum_%s(%s, bignum_to_uint64(%s))" % (
-                        op[expr.op], arg0, arg1
+                    # A count above the size acts as a count of the size
+                    # (the int parameter cannot hold every count)
+                    count = "(bignum_is_inf_unsigned(%s, bignum_from_uint64(%d))?(int)bignum_to_uint64(%s):%d)" % (
+                        arg1, expr.size, arg1, expr.size
                     )
+                    if expr.op == "a>>":
+                        out = "bignum_a_rshift(%s, %d, %s)" % (
+                            arg0, expr.size, count
+                        )
+                    else:
+                        out = "bignum_%s(%s, %s)" % (
+                            op[expr.op], arg0, count
+                        )
                     out = "bignum_mask(%s, %d)"% (out, expr.size)
                 return out
 
@@ -339,8 +349,9 @@ class TranslatorC(Translator):
                         ">>>": "ror",
                         "<<<": "rol"
                     }
-                    out = "bignum_%s(%s, %d, bignum_to_uint64(%s))" % (
-                        op[expr.op], arg0, expr.size, arg1
+                    # Rotations are taken modulo the size
+                    out = "bignum_%s(%s, %d, (int)bignum_to_uint64(bignum_umod(%s, bignum_from_uint64(%d))))" % (
+                        op[expr.op], arg0, expr.size, arg1, expr.size
                     )
                     out = "bignum_mask(%s, %d)"% (out, expr.size)
                 return out
